@@ -213,7 +213,7 @@ def run_case(case):
 
 
 def cases(tier, seed):
-    n = 400 if tier == "quick" else 12000
+    n = 400 if tier == "quick" else 60000
     names = ["prog", "my-p", "A_1", "x", "9lives", "bad name", "é", "", "Zz-9_"]
     for i in range(n):
         yield {"seed": seed * 2654435 + i, "size": [32, 64, 200][i % 3], "procname": names[i % len(names)],
